@@ -38,10 +38,16 @@ theorem degenerate_eq_model {Dp : Type} (wf : Nat → Nat → Int) (go ge : Int)
     SrcBand.degenerateAlignment ((go, ge, msc, cl.xp, cl.xs, cl.yp, cl.ys), bT, k, w, dp) m n =
       ok (outT (RbV.Model.BandedDP.degenerate ⟨wf, go, ge⟩ cl m n)) := by
   have a0 : Rs.assert (m == 0 || n == 0) = ok () := Rs.assert_ok (by rcases hmn with h | h <;> simp [h])
+  have a0' : Rs.assert (n == 0 || m == 0) = ok () := Rs.assert_ok (by rcases hmn with h | h <;> simp [h])
   have c1 : Rs.castSigned 32 m = (m : Int) := Rs.castSigned_of_lt (by simpa using hm)
   have c2 : Rs.castSigned 32 n = (n : Int) := Rs.castSigned_of_lt (by simpa using hn)
+  -- both operand orders of the product and of the sum
+  have i1 : Rs.imul 32 (m : Int) ge = ok (ge * (m : Int)) := by rw [Rs.imul_ok (by rwa [Int.mul_comm]), Int.mul_comm]
+  have i2 : Rs.iadd 32 (ge * (m : Int)) go = ok (go + ge * (m : Int)) := by rw [Rs.iadd_ok (by rwa [Int.add_comm]), Int.add_comm]
+  have i3 : Rs.imul 32 (n : Int) ge = ok (ge * (n : Int)) := by rw [Rs.imul_ok (by rwa [Int.mul_comm]), Int.mul_comm]
+  have i4 : Rs.iadd 32 (ge * (n : Int)) go = ok (go + ge * (n : Int)) := by rw [Rs.iadd_ok (by rwa [Int.add_comm]), Int.add_comm]
   unfold SrcBand.degenerateAlignment RbV.Model.BandedDP.degenerate outT
-  simp only [a0, c1, c2, Rs.imul_ok h1, Rs.iadd_ok h2, Rs.imul_ok h3, Rs.iadd_ok h4, ok_bind, pure_eq_ok, bind_pure_comp,
+  simp only [a0, a0', c1, c2, i1, i2, i3, i4, Rs.imul_ok h1, Rs.iadd_ok h2, Rs.imul_ok h3, Rs.iadd_ok h4, ok_bind, pure_eq_ok, bind_pure_comp,
     resize_nil, List.nil_append, decide_eq_true_eq, Bool.and_eq_true, ge_iff_le, gt_iff_lt]
   by_cases hm0 : 0 < m
   · simp only [hm0, if_true]
